@@ -188,3 +188,22 @@ Proof.
   exists ss, g. split; [exact Hw|]. split; [exact Hv|]. split; [exact Hc|].
   rewrite (Hr 40%nat [xff] r0 ltac:(vm_compute; lia) idle_r0), Hv. reflexivity.
 Qed.
+
+(* ---------- outside unions_single: a keeping union whose only field is a variant the reader does not know ----------
+   The keep build returns `_UnknownFields` (and re-emits the field), the plain build reports an empty union: the one place
+   where retention is visible in the decode OUTCOME.  By design of the `_UnknownFields` variant, and no known field is
+   involved; pinned here so that the restriction of C13_known_unchanged is exact. *)
+Theorem keep_unknown_variant_refuted :
+  exists S p k T tv ss,
+    wf_schema S = true /\ arg_free S T tv = true /\ wt tv = true /\ ttype_of tv = ttype_of_ty S T /\
+    evo_dom S T tv = true /\ no_retyped_variant S T tv = true /\ unions_single S T tv = false /\
+    write_val p k tv w0 = Ok (ss, w0) /\
+    gen_decode_keep S p 40 T (mkS (flat ss) r0) = Ok (GUnionUnknown [x0f; x00; x04; x03; x00; x00; x00; x01; x01], mkS [] r0) /\
+    gen_decode S p 40 T (mkS (flat ss) r0) = Err EInvalidData.
+Proof.
+  exists Rk, PBinary, BContig, (TyRef 2), (VStruct [(4, VList TI8 [VI8 1])]). eexists.
+  split; [vm_compute; reflexivity|]. split; [vm_compute; reflexivity|]. split; [vm_compute; reflexivity|].
+  split; [vm_compute; reflexivity|]. split; [vm_compute; reflexivity|]. split; [vm_compute; reflexivity|].
+  split; [vm_compute; reflexivity|]. split; [vm_compute; reflexivity|]. split; [vm_compute; reflexivity|].
+  vm_compute. reflexivity.
+Qed.
